@@ -33,6 +33,10 @@ namespace OP2Utility::Archive
 
 		m_Count = clmHeader.packedFilesCount;
 
+		if (static_cast<uint64_t>(m_Count) * sizeof(IndexEntry) > m_ArchiveFileSize - sizeof(clmHeader)) {
+			throw std::runtime_error("The index table does not fit in clm file " + m_ArchiveFilename);
+		}
+
 		indexEntries = std::vector<IndexEntry>(m_Count);
 		clmFileReader.Read(indexEntries);
 	}
